@@ -120,14 +120,14 @@ Definition b_tx (U : univ) (a : st) (x : op) (r : res) (b : st) : bool :=
       then res_eqb r ROk && zmem r0 (qget (q_und b) ce) && (holds b r0 =? holds a r0 + 1)
       else res_eqb r ROk && q_same U (q_und a) (q_und b) && (holds b r0 =? holds a r0)
   | SetKey o k | SetKeyK o k | OptInKey o k =>
-      (* a validating key that is replaced (first replacement of the epoch) must be registered for pruning at cur+unb *)
+      (* a key that is replaced (first replacement of the epoch) must be registered for pruning at cur+unb *)
       match k_op a o with
-      | Some c => negb (res_eqb r ROk && vs a c && negb (c =? k) && negb (is_some (k_prev a o))) || zmem c (qget (q_prune b) ce)
+      | Some c => negb (res_eqb r ROk && negb (c =? k) && negb (is_some (k_prev a o))) || zmem c (qget (q_prune b) ce)
       | None => true
       end
   | OptOut o =>
-      (* an opt-out of a validating operator must be registered for completion at cur+unb *)
-      negb (res_eqb r ROk && validating a o) || (zmem o (qget (q_opt b) ce) && oz_eqb (fin b o) (Some ce))
+      (* an opt-out of an operator that has a key must be registered for completion at cur+unb *)
+      negb (res_eqb r ROk && is_some (k_op a o)) || (zmem o (qget (q_opt b) ce) && oz_eqb (fin b o) (Some ce))
   | _ => true
   end.
 
@@ -136,6 +136,9 @@ Definition c16_step_ok (U : univ) (a : st) (x : op) (r : res) (b : st) : bool :=
   | BeginBlock true => b_tick U a b
   | BeginBlock false => b_dogfood_same U a b
   | EndBlock _ => b_end_block U a b
+  | SetClock _ =>
+      (* the epoch clock of the queues may only be exchanged while nothing is scheduled or pending *)
+      if nothing_scheduled a then b_dogfood_same U (with_cur a (cur b)) b else b_dogfood_same U a b
   | _ => b_tx U a x r b
   end.
 
